@@ -291,6 +291,11 @@ def _run(ctx: Ctx, box):
         observe_case(c["topo"], c["root"], k % 5, depths + ([50, 100, 150] if deep else []), events, meta, early=(k % 4 == 3))
         if k % 4 == 3:
             clear_typelib_caches()
+            if c["root"][0] != "cls" and k % 8 == 7:
+                # the same early-build history with the class itself as the root (the quick tier emits container roots only)
+                # (in the variant that makes that class a NamedTuple: its string annotations are kept as references)
+                observe_case(c["topo"], ["cls", c["root"][1]], {1: 4, 2: 3, 3: 2}[c["root"][1]], [0, 1, 2], events, meta, early=True)
+                clear_typelib_caches()
         for m in meta[n0:]:
             m["case_id"] = k
     depths = depths if quick else depths + [50, 100, 150]
